@@ -450,8 +450,8 @@ func (c *Ctx) c19Contexts() {
 				case *ssa.Call:
 					// context.Background() is the per-connection root only in the accept loop's goroutine
 					if cal := core.StaticCallee(x); cal != nil && cal.Pkg != nil && cal.Pkg.Pkg.Path() == "context" && (cal.Name() == "Background" || cal.Name() == "TODO") {
-						if fn.Parent() != nil && fn.Parent().Name() == "Serve" {
-							continue
+						if callee := core.StaticCallee(ci); callee != nil && callee == c.P.Method("wire", "Server", "serve") {
+							continue // the root of a connection's context: what Serve's connection goroutine hands to serve
 						}
 						ok, why = false, "context."+cal.Name()+"()"
 					} else {
